@@ -139,7 +139,7 @@ def subsets_job(args):
     try:
         ast = parse_file(src, use_cpp=True, cpp_args=["-std=" + d, "-nostdinc", "-I" + FAKE])
     except Exception as e:
-        return "headers %s (%s) + uses of every fake typedef: %s: %s" % (hs[:4], d, type(e).__name__, str(e)[:100])
+        return "headers %s (%s) + uses of every type name they define: %s: %s" % (hs[:4], d, type(e).__name__, str(e)[:100])
     decls = {n.name: n for n in ast.ext if isinstance(n, c_ast.Decl) and n.name and n.name.startswith("v")}
     for i, n in enumerate(names):
         dd = decls.get("v%d" % i)
@@ -175,6 +175,10 @@ def run(tier):
         results = pmap(one, jobs, chunk=8)
         texts = []
         ntd = 0
+        tdmap = {}
+        for h, d, f, err, extra in results:
+            if not err and extra:
+                tdmap.setdefault(h, set()).update(extra[1])
         for h, d, f, err, extra in results:
             if err:
                 ctx.fail("%s -std=%s cpp_args as %s: %s" % (h, d, f, err), dict(kind="config", h=h, d=d, f=f))
@@ -194,12 +198,33 @@ def run(tier):
             sub_hs = rnd.sample(hs, k)
             if "_fake_typedefs.h" not in sub_hs and not any(True for _ in sub_hs):
                 continue
-            sj.append((sub_hs + ["stddef.h"], rnd.choice(DIALECTS), names, wd))
+            extra_names = sorted({n for h in sub_hs for n in tdmap.get(h, ())} - set(names))
+            sj.append((sub_hs + ["stddef.h"], rnd.choice(DIALECTS), names + extra_names, wd))
         for r in pmap(subsets_job, sj, chunk=1):
             if r:
                 ctx.fail(r, dict(kind="subset"))
         ctx.count(len(sj), nontrivial=len(sj), traces=len(sj))
         ctx.note("random_header_subsets", dict(runs=len(sj), typedef_names_used=len(names)))
+        # ordered pairs: every header that defines type names of its own (beyond what all headers share), before and
+        # after every other header; all the names either header defines alone must be usable after both
+        common_names = set(tdmap.get("_fake_typedefs.h", ()))       # what (nearly) every header defines
+        own = {h: sorted(v - common_names) for h, v in tdmap.items() if v - common_names}
+        few = sorted(common_names)[:5]
+        pj = []
+        for h in sorted(own):
+            others = [g for g in hs if g != h]
+            if tier == "quick":
+                others = [g for g in others if g in own] + rnd.sample([g for g in others if g not in own], min(30, len([g for g in others if g not in own])))
+            for g in others:
+                nm = sorted(set(own[h]) | set(own.get(g, []))) + few
+                d = rnd.choice(DIALECTS)
+                pj.append(([h, g], d, nm, wd))
+                pj.append(([g, h], d, nm, wd))
+        for r in pmap(subsets_job, pj, chunk=4):
+            if r:
+                ctx.fail("ordered pair: " + r, dict(kind="subset"))
+        ctx.count(len(pj), nontrivial=len(pj), traces=len(pj))
+        ctx.note("ordered_header_pairs", dict(runs=len(pj), headers_with_type_names_of_their_own={h: len(v) for h, v in own.items()}))
         # code -> spec: lexer traces of preprocessed headers
         from . import lextrace
         tsel = texts if tier == "thorough" else rnd.sample(texts, min(len(texts), 25))
